@@ -93,7 +93,7 @@ func runC06(c *engine.Ctx) {
 	o.Signature = p.Draw(4, "cfg:presigned") == 3
 	o.BareList = true
 	doc := o.Pipeline()
-	src, format := gen.Render(p, doc, true)
+	src, format := gen.RenderMaybeMerged(p, doc, true)
 	c.Ev("doc", format, len(src), tape.HashString(string(src)))
 	c.Sample = map[string]any{"format": format, "document": truncate(string(src), 1500), "key": kp.kind}
 	pl, _ := parseDoc(c, "C06.panic", src)
